@@ -47,6 +47,8 @@ def silent_table():
     out = ["| variant | refactoring | checks that stay silent |", "|---|---|---|"]
     mp = os.path.join(V, "silent", "MATRIX.json")
     mx = json.load(open(mp)) if os.path.exists(mp) else {}
+    lp = os.path.join(V, "silent", "KNOWN_LIMITS.json")
+    limits = {k: v for k, v in (json.load(open(lp)) if os.path.exists(lp) else {}).items() if not k.startswith("_")}
 
     def key(d):
         m = re.match(r"R(\d+)-(\d+)", os.path.basename(os.path.dirname(d)))
@@ -55,7 +57,8 @@ def silent_table():
         meta = json.load(open(f))
         sid = meta["variant"]
         title = meta["title"].replace("|", "/")
-        out.append(f"| {sid} | {title[:150]} | all 19 (re-run by `bin/vcheck selftest`) |")
+        lim = limits.get(sid)
+        out.append(f"| {sid} | {title[:150]} | " + ("all 19 (re-run by `bin/vcheck selftest`)" if not lim else f"all but {', '.join(lim['checks'])} - known limit: {lim['why'][:160]}") + " |")
     return "\n".join(out)
 
 def main():
